@@ -6,6 +6,8 @@ CONSTANTS
   QTpl <- ThorQ
   RRTpl <- ThorRR
   OptTpl <- QuickOpt
+  Chain = FALSE
+  EmitFrom = 0
   MaxOps = 7
 INVARIANTS ParseBack Valid Fits Refusal NamesValid
 CONSTRAINT Emit
